@@ -247,15 +247,21 @@ def h_hashfn_str(ctx):
 
 # ------------------------------------------------------------------ H3.6 / H3.7 lookups
 class _SymDouble:
-    def __init__(self, ctx, names):
+    """symbol table double: returns named symbols and, like the real SymbolTableSection / DynamicSegment, reads from the
+    SHARED file stream while doing so (it leaves the stream somewhere else)"""
+    def __init__(self, ctx, names, stream=None):
         self.ctx = ctx
         self.names = names
+        self.stream = stream
         self.Symbol = ctx.lib('elf.sections').Symbol
 
     def get_symbol(self, idx):
         idx = self.ctx.concretize(idx)
         if not 0 <= idx < len(self.names):
             raise IndexError('symbol index %d outside the table' % idx)
+        if self.stream is not None:
+            self.stream.seek(0)
+            self.stream.read(1)
         return self.Symbol({'st_name': 0}, self.names[idx])
 
 
@@ -302,7 +308,7 @@ def h_sysv_lookup(ctx):
     orig = HM.ELFHashTable.__dict__['elf_hash']       # the staticmethod object itself
     HM.ELFHashTable.elf_hash = staticmethod(lambda name: h[name])
     try:
-        tab = HM.ELFHashTable(elf, cfg.get('base', 0), _SymDouble(ctx, names))
+        tab = HM.ELFHashTable(elf, cfg.get('base', 0), _SymDouble(ctx, names, elf.stream))
         q = cfg['query']
         r = tab.get_symbol(q)
         cnt = tab.get_number_of_symbols()
@@ -374,7 +380,7 @@ def h_gnu_lookup(ctx):
     orig = HM.GNUHashTable.__dict__['gnu_hash']
     HM.GNUHashTable.gnu_hash = staticmethod(lambda name: h[name])
     try:
-        tab = HM.GNUHashTable(elf, cfg.get('base', 0), _SymDouble(ctx, names))
+        tab = HM.GNUHashTable(elf, cfg.get('base', 0), _SymDouble(ctx, names, elf.stream))
         q = cfg['query']
         r = tab.get_symbol(q)
         cnt = tab.get_number_of_symbols()
